@@ -23,6 +23,7 @@ import (
 	"fmt"
 	"net"
 	"os"
+	"runtime"
 	"strconv"
 	"strings"
 	"sync"
@@ -43,8 +44,19 @@ func init() { h.Register("C19", driveC19) }
 // ------------------------------------------------------------------ syntax of a case
 
 type c19Call struct {
-	M int64 `json:"m"` // -1: pass on the message received; else a new message with this id
-	C int64 `json:"c"` // -1: pass on the context received; -2: context.Background(); else a child context with this tag
+	M int64 // -1: pass on the message received; else a new message with this id
+	C int64 // -1: pass on the context received; -2: context.Background(); else a child context with this tag
+}
+
+// in JSON a call is the pair [m, c]
+func (c c19Call) MarshalJSON() ([]byte, error) { return json.Marshal([2]int64{c.M, c.C}) }
+func (c *c19Call) UnmarshalJSON(b []byte) error {
+	var a [2]int64
+	if err := json.Unmarshal(b, &a); err != nil {
+		return err
+	}
+	c.M, c.C = a[0], a[1]
+	return nil
 }
 
 type c19Stage struct {
@@ -171,6 +183,50 @@ func (e c19Ev) coq() string {
 	}
 	return fmt.Sprintf("co %s %s %s", h.ZList(e.Ctx.Tags), c19oz(e.Ctx.Hdr), h.Z(e.M))
 }
+// c19Digest = trace_digest of ChainSyn.v: length and two polynomial hashes of the flat encoding.
+func c19Enc(e c19Ev) []int64 {
+	oz := func(p *int64) []int64 {
+		if p == nil {
+			return []int64{0, 0}
+		}
+		return []int64{1, *p}
+	}
+	ctx := func(c c19Ctx) []int64 {
+		l := append(oz(c.Hdr), int64(len(c.Tags)))
+		return append(l, c.Tags...)
+	}
+	res := func(r c19Res) []int64 {
+		l := []int64{0, 0, 0}
+		if r.Resp != nil {
+			l = []int64{1, r.Resp.ID, r.Resp.St}
+		}
+		return append(l, oz(r.Err)...)
+	}
+	switch e.K {
+	case 'E':
+		return append([]int64{1, int64(e.I), e.M}, ctx(e.Ctx)...)
+	case 'B':
+		return append([]int64{2, int64(e.I)}, res(e.R)...)
+	case 'R':
+		return append([]int64{3, int64(e.I)}, res(e.R)...)
+	case 'P':
+		return []int64{4, int64(e.I)}
+	}
+	return append([]int64{5, e.M}, ctx(e.Ctx)...)
+}
+
+func c19Digest(t []c19Ev) string {
+	const mask = uint64(1)<<63 - 1
+	h1, h2 := uint64(1), uint64(1)
+	for _, e := range t {
+		for _, x := range c19Enc(e) {
+			h1 = (h1*1000003 + uint64(x) + 7) & mask
+			h2 = (h2*998244353 + uint64(x) + 7) & mask
+		}
+	}
+	return fmt.Sprintf("(%d, %d%%uint63, %d%%uint63)", len(t), h1, h2)
+}
+
 func c19TraceCoq(t []c19Ev) string {
 	s := make([]string, len(t))
 	for i, e := range t {
@@ -213,10 +269,23 @@ func (s c19Stage) coq() string {
 	}
 	return fmt.Sprintf("sp %s %s %s %s %s", h.Bool(s.Once), h.Bool(s.UntilOK), h.List(calls), ret, h.Z(s.Own))
 }
-func c19ChainCoq(l []c19Stage) string {
+// c19StageDefs names every distinct stage program once (Definition sN := sp ...).
+type c19StageDefs struct {
+	names map[string]string
+	defs  strings.Builder
+}
+
+func (d *c19StageDefs) chain(l []c19Stage) string {
 	s := make([]string, len(l))
 	for i, x := range l {
-		s[i] = x.coq()
+		t := x.coq()
+		n, ok := d.names[t]
+		if !ok {
+			n = fmt.Sprintf("s%d", len(d.names))
+			d.names[t] = n
+			fmt.Fprintf(&d.defs, "Definition %s : sprog := %s.\n", n, t)
+		}
+		s[i] = n
 	}
 	return h.List(s)
 }
@@ -266,6 +335,7 @@ func (r *c19Rec) log(e c19Ev) {
 	r.mu.Lock()
 	r.trace = append(r.trace, e)
 	r.mu.Unlock()
+	runtime.Gosched() // let concurrent requests interleave at every observable point
 }
 func (r *c19Rec) enteredBefore(idx int) bool {
 	r.mu.Lock()
@@ -839,7 +909,11 @@ func c19Serve(conn net.Conn) {
 		if id%1000 >= 500 {
 			return // poisoned: drop the connection without answering
 		}
-		rec := c19Lookup(id)
+		v, ok := c19Recs.Load(id / 1000)
+		if !ok {
+			return
+		}
+		rec := v.(*c19Rec)
 		rec.log(c19Ev{K: 'C', M: id - rec.base})
 		n, _ := rec.answer()
 		resp := c19MkResp(n*1000 + id - rec.base)
@@ -1199,7 +1273,24 @@ func driveC19(c *h.Ctx) error {
 		"stages are real middlewares logging (position, context tags + batch header, message id) and every result; a case is non-trivial when its chain has at least one stage; distinct by (kind, chain, script, requests, concurrency)")
 	var cases []c19Case
 	if c.Replay != nil {
-		b, _ := json.Marshal(c.Replay["case"])
+		var src any = c.Replay["case"]
+		if src == nil { // a replay of "no-failing-input-found": re-run the first mismatching case
+			if br, ok := c.Replay["broken"].([]any); ok {
+				for _, x := range br {
+					if m, ok := x.(map[string]any); ok {
+						if f, ok := m["first"].([]any); ok && len(f) > 0 {
+							if fm, ok := f[0].(map[string]any); ok && src == nil {
+								src = fm["case"]
+							}
+						}
+					}
+				}
+			}
+		}
+		if src == nil {
+			return fmt.Errorf("replay file holds no case")
+		}
+		b, _ := json.Marshal(src)
 		var cs c19Case
 		if err := json.Unmarshal(b, &cs); err != nil {
 			return fmt.Errorf("replay case: %v", err)
@@ -1356,6 +1447,7 @@ func driveC19(c *h.Ctx) error {
 	}
 
 	rows := map[string][]string{}
+	sdefs := &c19StageDefs{names: map[string]string{}}
 	for i := range cases {
 		cs := &cases[i]
 		if len(cs.Msgs) == 0 {
@@ -1382,11 +1474,9 @@ func driveC19(c *h.Ctx) error {
 		}
 		for g := range outs {
 			got := &outs[g]
-			caseJSON := map[string]any{}
-			_ = json.Unmarshal(key, &caseJSON)
-			caseJSON["describe"] = c19Describe(cs)
+			caseJSON := json.RawMessage(key)
 			if i%701 == 0 && g == 0 {
-				smp := map[string]any{"case": caseJSON, "observed_result": got.finalString(cs.Kind), "observed_events": len(got.Trace), "handler_answers": got.N}
+				smp := map[string]any{"case": caseJSON, "describe": c19Describe(cs), "observed_result": got.finalString(cs.Kind), "observed_events": len(got.Trace), "handler_answers": got.N}
 				c.Sample(smp)
 			}
 			// ---- oracle
@@ -1399,7 +1489,13 @@ func driveC19(c *h.Ctx) error {
 			}
 			// ---- row for the model
 			var row, table string
-			tr := c19TraceCoq(got.Trace)
+			// the digest of the observed trace always, the trace itself when short and for a sample
+			tr := c19Digest(got.Trace) + ", "
+			if len(got.Trace) <= 10 || (i+g)%16 == 0 {
+				tr += "Some " + c19TraceCoq(got.Trace)
+			} else {
+				tr += "None"
+			}
 			switch cs.Kind {
 			case "client":
 				o := "Panic"
@@ -1407,7 +1503,7 @@ func driveC19(c *h.Ctx) error {
 					o = "Ok " + got.Res.coq()
 				}
 				table = "client"
-				row = fmt.Sprintf("(%s, %s, %s, (%s, %s, %s))", c19ChainCoq(cs.Chain), h.ZList(cs.Tags), h.Z(cs.Msgs[0]), o, h.Z(got.N), tr)
+				row = fmt.Sprintf("(%s, %s, %s, (%s, %s, %s))", sdefs.chain(cs.Chain), h.ZList(cs.Tags), h.Z(cs.Msgs[0]), o, h.Z(got.N), tr)
 			case "server", "nested":
 				o := "Panic"
 				if !got.Panicked {
@@ -1418,9 +1514,9 @@ func driveC19(c *h.Ctx) error {
 					}
 				}
 				table = cs.Kind
-				chains := c19ChainCoq(cs.Chain)
+				chains := sdefs.chain(cs.Chain)
 				if cs.Kind == "nested" {
-					chains += ", " + c19ChainCoq(cs.IChain)
+					chains += ", " + sdefs.chain(cs.IChain)
 				}
 				row = fmt.Sprintf("(%s, %s, %s, %s, (%s, %s, %s))", chains, c19ScriptCoq(cs.Script), h.ZList(cs.Tags), h.Z(cs.Msgs[0]), o, h.Z(got.N), tr)
 			default:
@@ -1433,7 +1529,7 @@ func driveC19(c *h.Ctx) error {
 					o = "Ok " + h.List(it)
 				}
 				table = "items"
-				row = fmt.Sprintf("(%s, %s, %s, %s, (%s, %s, %s))", c19ChainCoq(cs.Chain), c19ScriptCoq(cs.Script), h.ZList(cs.Tags), h.ZList(cs.Msgs), o, h.Z(got.N), tr)
+				row = fmt.Sprintf("(%s, %s, %s, %s, (%s, %s, %s))", sdefs.chain(cs.Chain), c19ScriptCoq(cs.Script), h.ZList(cs.Tags), h.ZList(cs.Msgs), o, h.Z(got.N), tr)
 			}
 			rows[table] = append(rows[table], row)
 			c.IndexCase("mism_"+table, len(rows[table])-1, caseJSON)
@@ -1445,7 +1541,7 @@ func driveC19(c *h.Ctx) error {
 		mode = "2%nat"
 	}
 	var sb strings.Builder
-	sb.WriteString("From Coq Require Import ZArith List Bool.\nFrom KV Require Import Base Chain ChainSyn Cases.\nImport ListNotations.\nOpen Scope Z_scope.\n")
+	sb.WriteString("From Coq Require Import ZArith List Bool Uint63.\nFrom KV Require Import Base Chain ChainSyn Cases.\nImport ListNotations.\nOpen Scope Z_scope.\n")
 	sb.WriteString(`Definition sp := Build_sprog.
 Definition en (i : Z) (tags : list Z) (hdr : option Z) (m : Z) : cevent := EvEnter (Z.to_nat i) (tags, hdr) m.
 Definition bk (i : Z) (r : cres) : cevent := EvBack (Z.to_nat i) r.
@@ -1453,9 +1549,10 @@ Definition rt (i : Z) (r : cres) : cevent := EvRet (Z.to_nat i) r.
 Definition pn (i : Z) : cevent := EvPanic (Z.to_nat i).
 Definition co (tags : list Z) (hdr : option Z) (m : Z) : cevent := EvCore (tags, hdr) m.
 `)
+	sb.WriteString(sdefs.defs.String())
 	total := 0
 	for _, t := range []struct{ name, ty, ok string }{{"client", "row_client", "row_client_ok"}, {"server", "row_server", "row_server_ok"}, {"items", "row_items", "row_items_ok"}, {"nested", "row_nested", "row_nested_ok"}} {
-		defs, expr := h.Chunk("rows_"+t.name, t.ty, rows[t.name], 200)
+		defs, expr := h.Chunk("rows_"+t.name, t.ty, rows[t.name], 400)
 		sb.WriteString(defs)
 		fmt.Fprintf(&sb, "Definition mism_%s := Eval vm_compute in bad_idx (%s %s) %s 0.\nPrint mism_%s.\n", t.name, t.ok, mode, expr, t.name)
 		total += len(rows[t.name])
